@@ -8,7 +8,7 @@ import tempfile
 import time
 
 VERIF = os.path.dirname(os.path.dirname(os.path.abspath(__file__)))
-SPEC = os.path.join(VERIF, "spec")
+SPEC = os.environ.get("VERIF_SPEC", os.path.join(VERIF, "spec"))      # VERIF_SPEC: development copy of the specifications
 JAR = "/opt/veriftools/tla/tla2tools.jar:/opt/veriftools/tla/CommunityModules-deps.jar"
 
 
